@@ -672,7 +672,7 @@ def run(ctx):
                        "1-3 handlers (function / bound method) x 3 dispatchers (same, a custom callable, ui on the main thread); a case is "
                        "non-trivial if some step raises or calls a handler; distinct = distinct (pool, handlers, history)")
     rnd = random.Random(ctx.seed)
-    n, maxlen = (900, 10) if ctx.tier == "quick" else (13000, 20)
+    n, maxlen = (700, 10) if ctx.tier == "quick" else (13000, 20)
     if ctx.replay:
         cases = [json.load(open(ctx.replay))["replay"]["case"]]
     else:
